@@ -419,7 +419,7 @@ pub fn run_random(ctx: &Ctx, acc: &mut Acc) {
             if idx % ctx.nshards != ctx.shard || acc.violations.len() >= 4 || !ctx.time_left() {
                 continue;
             }
-            let shape = Shape { links: vec![(b, g)], closed: (b + g) % 2 == 1 };
+            let shape = Shape { links: vec![(b, g)], closed: (b + g) % 2 == 1, in_helper: (b + 2 * g) % 3 == 0 };
             if judge_shape(acc, &shape, &|| true) {
                 acc.count("single_link_shapes_judged");
                 acc.nontrivial(crate::rng::hash_str(&shape.to_code()));
